@@ -43,7 +43,41 @@ THEOREMS = [
 
 
 # theorems `regenerated definition = hand-written model` (CvProps/C20g.lean; translator harness/extract/pylean.py)
-GEN_THEOREMS = []
+GEN_THEOREMS = [
+    "Cv.C20g.identity_perm_gen",
+    "Cv.C20g.identity_perm_gen_neg",
+    "Cv.C20g.apply_permutation_gen",
+    "Cv.C20g.apply_permutation_gen_total",
+    "Cv.C20g.compose_permutations_gen",
+    "Cv.C20g.inverse_permutation_gen",
+    "Cv.C20g.inverse_permutation_negative_index",
+    "Cv.C20g.is_permutation_gen",
+    "Cv.C20g.is_permutation_gen_neg",
+    "Cv.C20g.transposition_gen",
+    "Cv.C20g.transposition_gen_neg",
+    "Cv.C20g.permutation_from_cycles_gen",
+    "Cv.C20g.gen_is_permutation_iff",
+    "Cv.C20g.gen_is_permutation_iff_isPermOf",
+    "Cv.C20g.gen_compose_inverse_right",
+    "Cv.C20g.gen_compose_inverse_left",
+    "Cv.C20g.gen_inverse_inverse",
+    "Cv.C20g.gen_inverse_is_permutation",
+    "Cv.C20g.gen_apply_compose",
+    "Cv.C20g.gen_compose_assoc",
+    "Cv.C20g.gen_apply_identity",
+    "Cv.C20g.gen_apply_inverse_cancel",
+    "Cv.C20g.gen_transposition_spec",
+    "Cv.C20g.gen_transposition_none_iff",
+    "Cv.C20g.gen_fromCycles_spec",
+    "Cv.C20g.gen_fromCycles_is_permutation",
+    "Cv.C20g.gen_fromCycles_isSome_iff",
+    "Cv.C20g.inverse_permutation_gen_none",
+    "Cv.C20g.compose_permutations_gen_option",
+    "Cv.C20g.is_permutation_gen_int",
+    "Cv.C20g.permutation_from_cycles_gen_default",
+    "Cv.C20g.transposition_gen_nonpos",
+    "Cv.C20g.permutation_from_cycles_gen_neg",
+]
 
 
 from cv.pygen_corr import gen_tie  # noqa: E402
